@@ -28,6 +28,7 @@ class AbstractGate:
             self._parameters = []
         else:
             self._parameters = parameters
+        _check_parameter_names(name, self._parameters)
         self._ideal_unitary = ideal_unitary
 
     def __repr__(self):
@@ -117,11 +118,19 @@ class AbstractGate:
         if name is not None:
             copy._name = name
         if parameters is not None:
+            _check_parameter_names(copy._name, parameters)
             copy._parameters = parameters
         if ideal_unitary is not None:
             copy._ideal_unitary = ideal_unitary
 
         return copy
+
+
+def _check_parameter_names(name, parameters):
+    """Arguments are bound by parameter name, so the names must differ."""
+    names = [param.name for param in parameters]
+    if len(set(names)) != len(names):
+        raise JaqalError(f"Gate {name} has a repeated parameter name")
 
 
 class GateDefinition(AbstractGate):
